@@ -471,7 +471,10 @@ func Run(tier string, seed int64, outDir string, replay string) (*core.Result, e
 		cases = append(cases, GenCase(rng, i))
 	}
 	var coqCases []string
+	caseIndex := map[string]interface{}{}
+	res.Extra["case_index"] = caseIndex
 	for i, c := range cases {
+		caseIndex[fmt.Sprint(i)] = c
 		o := Observe(c)
 		key, _ := json.Marshal(c)
 		res.Count(string(key[strings.Index(string(key), ",")+1:]), o.Class != "InvalidSchema")
